@@ -96,12 +96,12 @@ Definition insert (maxsize : nat) (s : N) (r : ref) (c : cache) : cache := first
 Inductive parser := PCond | PAhb.
 (* what a caller puts into a children list: a new Token, a new Tree built by the caller, or an object reachable from
    one of the handles it holds (this is how subtrees are moved between trees, and how aliasing is created) *)
-Inductive source := SJunkTok (ty v : text) | SJunkTree (t : atree) | SSub (h : nat) (p : list nat).
+Inductive source := SJunkTok (ty v : text) | SJunkTree (t : atree) | SSub (h : N) (p : list nat).
 Inductive edit := EReplace (i : nat) (x : source) | ERemove (i : nat) | EAppend (x : source).
 Inductive op :=
-| Parse (p : parser) (s : N)                           (* handle number = number of successful parses before *)
-| Edit (h : nat) (path : list nat) (e : edit)          (* edit the children list of the Tree at [path] below handle h *)
-| Peek (h : nat).                                      (* read a handle back (extra observation, aliasing between handles) *)
+| Parse (p : parser) (s : N)                           (* handle number = number of successful parses before (N: binary) *)
+| Edit (h : N) (path : list nat) (e : edit)             (* edit the children list of the Tree at [path] below handle h *)
+| Peek (h : N).                                        (* read a handle back (extra observation, aliasing between handles) *)
 Definition history := list op.
 Inductive observation := OParse (r : result atree) | OPeek (r : result atree).
 
@@ -178,15 +178,15 @@ Section Run.
     match src with
     | SJunkTok ty v => Some ((st_store x, st_next x), RTok ty v)
     | SJunkTree t => Some (alloc t (st_store x, st_next x))
-    | SSub h p => match nth_error (st_handles x) h with
+    | SSub h p => match nth_error (st_handles x) (N.to_nat h) with
                   | None => None
                   | Some r0 => option_map (fun r => ((st_store x, st_next x), r)) (nav (st_store x) r0 p)
                   end
     end.
 
   (* an edit that Python would reject (bad handle, path through a token, index out of range) changes nothing *)
-  Definition step_edit (x : state) (h : nat) (path : list nat) (e : edit) : state :=
-    match nth_error (st_handles x) h with
+  Definition step_edit (x : state) (h : N) (path : list nat) (e : edit) : state :=
+    match nth_error (st_handles x) (N.to_nat h) with
     | None => x
     | Some r0 =>
       match nav (st_store x) r0 path with
@@ -218,7 +218,7 @@ Section Run.
     match o with
     | Parse p s => step_parse x p s
     | Edit h path e => (step_edit x h path e, [])
-    | Peek h => (x, [OPeek (match nth_error (st_handles x) h with
+    | Peek h => (x, [OPeek (match nth_error (st_handles x) (N.to_nat h) with
                             | None => Exn KeyErr
                             | Some r => readb (st_next x) (st_store x) r
                             end)])
